@@ -102,7 +102,9 @@ Fixpoint bytes_lt (a b : bytes) : bool :=
 Fixpoint cv_insert (k : bytes) (v : cvalue) (m : list (bytes * cvalue)) : list (bytes * cvalue) :=
   match m with
   | [] => [(k, v)]
-  | (k', v') :: r => if bytes_lt k k' then (k, v) :: m else (k', v') :: cv_insert k v r
+  | (k', v') :: r =>
+      if bytes_eqb k k' then (k, v) :: r            (* a map keeps the last of equal keys *)
+      else if bytes_lt k k' then (k, v) :: m else (k', v') :: cv_insert k v r
   end.
 Fixpoint cv_sort (v : cvalue) : cvalue :=
   match v with
